@@ -77,7 +77,7 @@ inductive Err where
   | insufficientForGas | gasLimitReached | outOfGas | txType
   | insufficientBalance | notCandidate | alreadyVoted | registerAgain | depositTooSmall
   | depositMissing | boxInBox | signerWeight | signerRepeat | signerCount | tempAddress
-  | isCandidate | repeatSetTemp
+  | isCandidate | repeatSetTemp | invalidProfile
   deriving Repr, DecidableEq
 
 def Err.name : Err → String
@@ -90,6 +90,7 @@ def Err.name : Err → String
   | .depositMissing => "ErrFailedGetDepositBalacne" | .boxInBox => "BoxInBox"
   | .signerWeight => "ErrWeight" | .signerRepeat => "ErrAddressRepeat" | .signerCount => "ErrSignersNumber"
   | .tempAddress => "ErrTempAddress" | .isCandidate => "ErrIsCandidate" | .repeatSetTemp => "ErrRepeatSetTempAddress"
+  | .invalidProfile => "ErrInvalidProfile"
 
 /-! ### authorisation (C06) -/
 
@@ -189,6 +190,10 @@ structure Ctx where
       `false` = the order in which the vote pass runs first (the salaries and refunds of a reward block then
       never reach the candidates their receivers vote for). -/
   votesLast : Bool := true
+  /-- `true` = the code as it stands (after fix cdfc5bc): `CheckRegisterTxProfile` refuses an isCandidate value other than
+      "true"/"false" and `registerCandidate` refuses "false" on a first registration. `false` = the code before the fix:
+      the flag was never looked at (stored / copied as it came). -/
+  flagCheck : Bool := true
 
 /-! ### the non-EVM transaction bodies -/
 
@@ -217,16 +222,21 @@ def refund (c : Ctx) (s : St) (cand : Nat) : St :=
     let s := setBal s cand ((s.accts cand).bal + d)
     modAcct s cand (fun a => { a with deposit := none })
 
-/-- `RegisterOrUpdateToCandidate`. The flag of the tx data is never validated: a FIRST registration stores it as it is
-    (so `"false"` registers an "unregistered candidate" WITH deposit votes, `""` leaves the account in the
-    "never registered" state with a deposit and votes — it can register again, the first deposit stays in the pool),
-    and a modification copies it over the stored flag. -/
+/-- `RegisterOrUpdateToCandidate`. Current code (`c.flagCheck`): `buildProfile` → `CheckRegisterTxProfile` refuses a flag
+    that is neither "true" nor "false" (the tx fails: ErrInvalidProfile), `registerCandidate` refuses "false" on a first
+    registration. Before fix cdfc5bc (`flagCheck = false`) the flag was never validated: a FIRST registration stored it as
+    it was (so `"false"` registered an "unregistered candidate" WITH deposit votes, `""` left the account in the "never
+    registered" state with a deposit and votes — it could register again, the first deposit staying in the pool), and a
+    modification copied it over the stored flag. The stored state space keeps all four values: accounts stored by the
+    old code are not migrated. -/
 def doRegister (c : Ctx) (s : St) (from' : Nat) (amount : Int) (flag : Nat) (income : Nat) (nodeDep : Bool := false) : Except Err St :=
   let a := s.accts from'
   let inc := if income = 0 then from' else income
-  if a.isCand = 0 then
+  if c.flagCheck = true ∧ (flag = 0 ∨ flag = 3) then .error .invalidProfile
+  else if a.isCand = 0 then
     -- registerCandidate
-    if amount < c.p.minDeposit then .error .depositTooSmall
+    if c.flagCheck = true ∧ flag = 2 then .error .notCandidate
+    else if amount < c.p.minDeposit then .error .depositTooSmall
     else if a.bal < amount then .error .insufficientBalance
     else
       let s := modAcct s from' (fun a => { a with isCand := flag, deposit := some amount, income := inc, isDeputy := nodeDep })
